@@ -29,10 +29,20 @@ REQUIRED = [
 
 
 def gen_chain(rng, sc, length):
-    """[(sdl, tags)]: S1 generated, S(i+1) = mutate(Si)"""
-    spec = sc.gen_spec(rng, rng.choice([2, 3, 4, 5]))
+    """[(sdl, tags)]: S1 generated, S(i+1) = mutate(Si).  A third of the chains start from a schema with the
+    shared-pointer shape (same-named pointer from several unrelated parents) and apply the one-parent-only
+    mutations in LATER steps (create in step i, drop from one parent in step j > i)."""
+    shared = rng.random() < 0.34
+    if shared:
+        spec = sc.gen_spec(rng, rng.choice([1, 2, 3]), features=set(sc.DEFAULT_FEATURES) | {'shared_ptrs'})
+    else:
+        spec = sc.gen_spec(rng, rng.choice([2, 3, 4, 5]))
     chain = [(sc.render(spec), ['initial'])]
     for _ in range(length - 1):
+        if shared and rng.random() < 0.6 and sc.shared_sites(spec):
+            spec, tags = sc.mutate(rng, spec, 1, kinds=list(sc.SHARED_MUTATIONS))
+            chain.append((sc.render(spec), list(tags)))
+            continue
         if rng.random() < 0.08:
             spec, tags = sc.gen_spec(rng, rng.choice([2, 3])), ['unrelated']
         else:
@@ -140,6 +150,29 @@ def run_corpus(ctx: core.Ctx, eng: c02.Engine) -> dict:
     return res
 
 
+def run_chains(ctx: core.Ctx, eng: c02.Engine, n_chains: int, deadline_s: float | None = None):
+    """corpus witnesses and rebase chains ALWAYS run in full; only the number of random chains is reduced by the
+    wall-clock guard (never below the minimum): a slow machine covers a prefix of the same chain sequence"""
+    sc = eng.sc
+    t0 = time.time()
+    recs = []
+    corpus = run_corpus(ctx, eng)
+    for ch in c02.SHARED_CHAINS:          # deterministic: shape created in step 1, pointer dropped from one parent later
+        recs.append(check_chain(ctx, eng, [(s, ['shared-chain']) for s in ch], stream='shared-chains'))
+    for _ in range(ctx.budget(3, 60)):
+        recs.append(check_chain(ctx, eng, gen_rebase_chain(ctx.rng, ctx.rng.choice([3, 4])), stream='rebase-chains'))
+    deadline = time.time() + (deadline_s if deadline_s is not None else ctx.budget(100, 1500))
+    for i in range(n_chains):
+        if time.time() > deadline and i >= ctx.budget(4, 60):
+            ctx.notes.append(f'stopped after {i} of {n_chains} random chains (time budget)')
+            break
+        length = ctx.rng.choice([2, 3, 4, 5]) if ctx.quick() else ctx.rng.choice([3, 4, 5, 6, 8])
+        recs.append(check_chain(ctx, eng, gen_chain(ctx.rng, sc, length)))
+    ctx.log(f'{len(recs)} chains in {time.time() - t0:.1f}s; engine time '
+            f'{dict((k, round(v, 1)) for k, v in eng.t.items())}')
+    return recs, corpus
+
+
 def run(ctx: core.Ctx):
     proved = ctx.proof_stage(PROPS, ['EdbVerif.Props.C10', 'Driver.C02'], required=REQUIRED)
     ctx.log('proof stage:', 'ok' if proved else ctx.proof['broken'])
@@ -163,20 +196,7 @@ def run(ctx: core.Ctx):
                 r1 = c02.run_level1(ctx, [c02._unjson(d['case'])])
     else:
         r1 = c02.run_level1(ctx, [l1.gen_case(ctx.rng) for _ in range(ctx.budget(100, 5000))])
-        n_chains = ctx.budget(10, 300)
-        t0 = time.time()
-        deadline = t0 + ctx.budget(100, 1500)
-        for i in range(n_chains):
-            if time.time() > deadline and i >= ctx.budget(4, 60):
-                ctx.notes.append(f'stopped after {i} of {n_chains} chains (time budget)')
-                break
-            length = ctx.rng.choice([2, 3, 4, 5]) if ctx.quick() else ctx.rng.choice([3, 4, 5, 6, 8])
-            recs.append(check_chain(ctx, eng, gen_chain(ctx.rng, sc, length)))
-        for _ in range(ctx.budget(3, 60)):
-            recs.append(check_chain(ctx, eng, gen_rebase_chain(ctx.rng, ctx.rng.choice([3, 4])), stream='rebase-chains'))
-        corpus = run_corpus(ctx, eng)
-        ctx.log(f'{len(recs)} chains in {time.time() - t0:.1f}s; engine time '
-                f'{dict((k, round(v, 1)) for k, v in eng.t.items())}')
+        recs, corpus = run_chains(ctx, eng, ctx.budget(10, 300))
 
     if not proved:
         ctx.proof_broken_verdict()
